@@ -20,7 +20,7 @@ if mode == 'seeds':
             print(tag, 'PATCH DOES NOT APPLY'); continue
         r = sh('python3 %s/checks/run.py %s --tier quick' % (V, pid))
         sh('git -C /repo checkout -- .'); sh('git -C %s checkout -- evidence' % V); shutil.rmtree(V + '/evidence/replay', ignore_errors=True)
-        lines = [l for l in r.stdout.splitlines() if l.startswith('/repo')]
+        lines = [l for l in r.stdout.splitlines() if re.search(r':\d+: R-[A-Z]', l) or re.search(r': R-[A-Z0-9-]+(:[a-z-]+)? in ', l)]
         if r.returncode == 1 and lines:
             m = re.search(r': (R-[A-Z0-9:a-z-]+) in ([^:]+):', lines[0])
             note = '%s quick: %s %s' % (pid, m.group(1) if m else '?', (m.group(2) if m else '')[:80])
